@@ -365,12 +365,20 @@ func (tc *TypeChecker) ValidateTypeReference(t Type) error {
 
 // ValidateObjectAgainstTypeDef validates an object against a TypeDef
 func (tc *TypeChecker) ValidateObjectAgainstTypeDef(obj map[string]interface{}, typeDef TypeDef) error {
-	// Check required fields (fields with defaults are not required)
+	// Check required fields (fields with defaults are not required to be
+	// present). A required field that is present but null is as good as
+	// missing: CheckType lets null through for every type, so this is the only
+	// place that can refuse it.
 	for _, field := range typeDef.Fields {
-		if field.Required && field.Default == nil {
-			if _, exists := obj[field.Name]; !exists {
-				return fmt.Errorf("missing required field: %s", field.Name)
-			}
+		if !field.Required {
+			continue
+		}
+		value, exists := obj[field.Name]
+		if !exists && field.Default == nil {
+			return fmt.Errorf("missing required field: %s", field.Name)
+		}
+		if exists && value == nil {
+			return fmt.Errorf("required field %s must not be null", field.Name)
 		}
 	}
 
